@@ -13,6 +13,7 @@
 import DfolsVerif.Proofs.RunsAcc
 import DfolsVerif.Proofs.CountAcc
 import DfolsVerif.Gen.ExitSites
+import DfolsVerif.Proofs.RestartGuards
 
 namespace Dfols
 namespace C10
@@ -184,6 +185,17 @@ theorem C10_src_success_reasons : ∀ s ∈ Gen.exitSites, s.flag = "EXIT_SUCCES
     s.msg ∈ ["Objective is sufficiently small", "rho has reached rhoend", "All points within noise level",
              "Reached maximum number of unsuccessful restarts"] := by
   decide +kernel
+
+/-- **`soft_restart`'s admission test, translated from the source** (`Gen.softRestartRefusal`, integers as in Python):
+    it refuses with the max-evaluations warning only when `nf ≥ maxfun` (and the restart limit is not the reason), with
+    'maximum number of unsuccessful restarts' only when that many runs went by, creates no other exit, and proceeds
+    exactly when both tests pass — the semantic counterpart of `C10_src_maxfun`'s second disjunct. -/
+theorem C10_soft_refusal (nruns last maxUnsucc nf maxfun : Int) :
+    (∀ m, Gen.softRestartRefusal nruns last maxUnsucc nf maxfun = some (1, m) → maxfun ≤ nf ∧ nruns - last < maxUnsucc) ∧
+    (∀ m, Gen.softRestartRefusal nruns last maxUnsucc nf maxfun = some (0, m) → maxUnsucc ≤ nruns - last) ∧
+    (∀ f m, Gen.softRestartRefusal nruns last maxUnsucc nf maxfun = some (f, m) → f = 0 ∨ f = 1) ∧
+    (Gen.softRestartRefusal nruns last maxUnsucc nf maxfun = none ↔ (nruns - last < maxUnsucc ∧ nf < maxfun)) :=
+  RestartGuards.softRestartRefusal_truthful nruns last maxUnsucc nf maxfun
 
 /-- non-vacuity: the table has sites of each kind -/
 example : (Gen.exitSites.filter (·.flag = "EXIT_MAXFUN_WARNING")).length = 3 ∧
